@@ -491,7 +491,16 @@ pub fn run(tier: Tier, replay: Option<&str>) {
                     if front == "nb" {
                         dev.clock_start = Some(0xFFFF_E000);
                     }
-                    hist_cfgs.push(HistCfg { front: front.into(), dev });
+                    hist_cfgs.push(HistCfg { front: front.into(), dev: dev.clone() });
+                    // fixed plans joined under a join bias: the first data uplinks stay on the preferred sub-band at a
+                    // forced data rate - the windows follow the rate actually used, not the configured one
+                    if otaa && rr::is_fixed(region) && offs == 0 {
+                        for bias in [(2u8, 1usize), (2, 8)] {
+                            let mut d = dev.clone();
+                            d.bias = Some(bias);
+                            hist_cfgs.push(HistCfg { front: front.into(), dev: d });
+                        }
+                    }
                 }
             }
         }
@@ -516,7 +525,7 @@ pub fn run(tier: Tier, replay: Option<&str>) {
         "capped": capped,
         "evaluations": ctx.evals(),
         "distinct_nontrivial": nontrivial.load(Ordering::Relaxed),
-        "rule": "(H) BFS over histories on one device instance per region x front-end x {ABP, OTAA}: uplinks (first RNG draw from a set), uplinks answered in RX1 or RX2 by RXParamSetupReq (valid: offset 1 / regional maximum, another RX2 data rate and frequency, back to the defaults; invalid in one field: RX2 data rate 14 (RFU in every region), out-of-band frequency, offset above the regional maximum), RXTimingSetupReq 0 / 2 / 15, DlChannelReq, NewChannelReq create / redefine / delete, LinkADRReq (mask down to the extra channel, all channels, lowest data rate), set_datarate lowest / highest, (nb) set_datarate between TX and the windows, unanswered join attempts and (re-)joins whose accept carries other DLSettings / RxDelay in RX1 or RX2; every transaction that transmits is judged against a reference model of the parameters in force (updated only by requests that are unambiguously valid) and the regional tables: RX1 frequency and data rate, RX2 frequency and data rate, Class C parameters, window size limits, window times (nb clock started shortly before its 2^32 ms wrap); states = distinct (device snapshot minus counters and keys, front-end state, reference model). Plus eight full sub-products per region and front-end (nb, async, async+Class C), each case a fresh real device brought into the configuration by authentic RXParamSetupReq / RXTimingSetupReq / DlChannelReq downlinks and set_datarate: (P1) every region-defined uplink data rate x RX1DROffset 0..7 x first RNG draw (all 64 for the 72-channel plans); (P2) RXTimingSetupReq delay 0..15 x board offset/lead {0,15,50,100} x TX end time; (P2b, nb) TX end times around 2^31 ms and the 2^32 ms wrap of the clock x delay x offset; (P3) all 16 RX2 data rate values x 2 frequencies x lowest/highest uplink rate; (P4) DlChannelReq on channels 0..3 x 2 frequencies x draws; (P5) joins under join-bias settings x draws; (P6, nb) set_datarate between TX and the windows; (P7) a re-join on a default channel after DlChannelReq remapped its downlink frequency; (P8) NewChannelReq, DlChannelReq, then a NewChannelReq redefining the same channel; (P9) DlChannelReq on a default channel, the mask reduced to an extra channel, that channel deleted (fallback to the default channels). non-trivial = cases with an installed override or a join",
+        "rule": "(H) BFS over histories on one device instance per region x front-end x {ABP, OTAA, OTAA under a join bias with 1 / 8 retries (72-channel plans)}: uplinks (first RNG draw from a set), uplinks answered in RX1 or RX2 by RXParamSetupReq (valid: offset 1 / regional maximum, another RX2 data rate and frequency, back to the defaults; invalid in one field: RX2 data rate 14 (RFU in every region), out-of-band frequency, offset above the regional maximum), RXTimingSetupReq 0 / 2 / 15, DlChannelReq, NewChannelReq create / redefine / delete, LinkADRReq (mask down to the extra channel, all channels, lowest data rate), set_datarate lowest / highest, (nb) set_datarate between TX and the windows, unanswered join attempts and (re-)joins whose accept carries other DLSettings / RxDelay in RX1 or RX2; every transaction that transmits is judged against a reference model of the parameters in force (updated only by requests that are unambiguously valid) and the regional tables: RX1 frequency and data rate, RX2 frequency and data rate, Class C parameters, window size limits, window times (nb clock started shortly before its 2^32 ms wrap); states = distinct (device snapshot minus counters and keys, front-end state, reference model). Plus eight full sub-products per region and front-end (nb, async, async+Class C), each case a fresh real device brought into the configuration by authentic RXParamSetupReq / RXTimingSetupReq / DlChannelReq downlinks and set_datarate: (P1) every region-defined uplink data rate x RX1DROffset 0..7 x first RNG draw (all 64 for the 72-channel plans); (P2) RXTimingSetupReq delay 0..15 x board offset/lead {0,15,50,100} x TX end time; (P2b, nb) TX end times around 2^31 ms and the 2^32 ms wrap of the clock x delay x offset; (P3) all 16 RX2 data rate values x 2 frequencies x lowest/highest uplink rate; (P4) DlChannelReq on channels 0..3 x 2 frequencies x draws; (P5) joins under join-bias settings x draws; (P6, nb) set_datarate between TX and the windows; (P7) a re-join on a default channel after DlChannelReq remapped its downlink frequency; (P8) NewChannelReq, DlChannelReq, then a NewChannelReq redefining the same channel; (P9) DlChannelReq on a default channel, the mask reduced to an extra channel, that channel deleted (fallback to the default channels). non-trivial = cases with an installed override or a join",
         "samples": [serde_json::to_value(&cases[0]).unwrap(), serde_json::to_value(&cases[cases.len() / 2]).unwrap(), serde_json::to_value(cases.last().unwrap()).unwrap()],
         "exhaustive": !capped,
         "regions": regions,
